@@ -122,9 +122,9 @@ theorem loadLine_fold (ls : List Bytes) : ∀ st : LoadSt,
       rw [loadLine_rule st raw hr, List.filter_cons_of_pos hr]
       cases hp : parseCIDR (cook raw) with
       | none =>
-        simp [List.filterMap_cons, hp, List.any_cons]
+        simp [hp, List.any_cons]
       | some r =>
-        simp [List.filterMap_cons, hp, List.any_cons]
+        simp [hp, List.any_cons]
         omega
 
 end Rain.Blocklist
